@@ -38,13 +38,13 @@ func main() {
 		defer func() {
 			if e := recover(); e != nil {
 				fmt.Printf("UNDECIDED property=%s reason=checker panic: %v\n%s\n", *prop, e, debug.Stack())
-				code = 2
+				code = r.Abort(fmt.Sprintf("checker panic: %v", e))
 			}
 		}()
 		prog, err := load.Load(p.NeedDeps, nil)
 		if err != nil {
 			fmt.Printf("UNDECIDED property=%s reason=load failed: %v\n", *prop, err)
-			code = 2
+			code = r.Abort(fmt.Sprintf("load failed: %v", err))
 			return
 		}
 		r.Count("packages", len(prog.Pkgs))
